@@ -139,7 +139,7 @@ func propC01(w *World, r *Report, tier string) {
 	sa := runEntries(w, r, entries)
 	sa.report(r, "C01")
 	r.Expect("safe.entries", 3)
-	r.Expect("safe.loop", 44)
+	r.ExpectCensus("safe.loop", sa.loopCensus(), 44)
 	r.Expect("safe.slice", 8)
 	// allocation bound
 	var maxFixed int64
